@@ -296,6 +296,12 @@ theorem inv_step (w : World) (e : Event) (h : Inv w) (hp : launchPersists w e = 
     · simp only [hx, if_true]; exact h
     · simp only [hx]; exact inv_of_claim_eq w _ h rfl id rfl
   | vaGone name => exact inv_of_claim_eq w _ h rfl id rfl
+  | vaTerminating name => exact inv_of_claim_eq w _ h rfl id rfl
+  | vaAdd v =>
+    unfold step
+    by_cases hx : (w.vas.any (·.name == v.name)) = true
+    · simp only [hx, if_true]; exact h
+    · simp only [hx]; exact inv_of_claim_eq w _ h rfl id rfl
   | tick d => exact inv_of_claim_eq w _ h rfl id rfl
   | instanceGone => exact ⟨h.notLost, fun hne => absurd rfl hne, h.freshNoPid⟩
   | setReady b => exact inv_of_claim_eq w _ h rfl id rfl
